@@ -43,6 +43,36 @@ def rand_tex3ds(rng, names, maxside):
     return dict(name=name, w=w, h=h, fmt=fmt, data=rand_bytes(rng, texref.payload_size(fmt, w, h)), pal=b"")
 
 
+def payload_bytes(fmt, w, h):
+    """bytes of a w x h payload of any 3DS format id (get_pixel_format_bpp of the format documentation)"""
+    bpp2 = {0: 8, 1: 6, 2: 4, 3: 4, 4: 4, 5: 4, 6: 2, 7: 2, 8: 2, 9: 2, 10: 1, 11: 2, 12: 1, 13: 2}.get(fmt, 0)
+    return bpp2 * w * h // 2
+
+
+def rand_tex3ds_odd(rng, names):
+    """textures outside the supported set that the readers still have to handle cleanly: sides that are not powers of
+    two / not multiples of the 8x8 tile, the remaining format ids (RGB8, HILO8, LA4, L4, A4)"""
+    r = rng.random()
+    if r < 0.4:      # supported colour format, multiple of 8 but not a power of two
+        w, h = rng.choice([8, 24, 40]), rng.choice([8, 24, 16])
+        fmt = rng.choice([0, 2, 3, 4, 5, 7, 8])
+    elif r < 0.7:    # not a multiple of the tile
+        w, h = rng.choice([4, 12, 20, 8]), rng.choice([4, 12, 8, 9])
+        fmt = rng.choice([0, 2, 3, 4, 5, 7, 8])
+    else:            # the other format ids
+        w, h = rng.choice([8, 16, 12]), rng.choice([8, 16])
+        fmt = rng.choice([1, 6, 9, 10, 11])
+    return dict(name=rng.choice(names), w=w, h=h, fmt=fmt, data=rand_bytes(rng, payload_bytes(fmt, w, h)), pal=b"")
+
+
+def is_supported(kind, t):
+    if kind == "tpl":
+        return True
+    if t["fmt"] in (12, 13):
+        return t["w"] >= 8 and t["h"] >= 8 and t["w"] & (t["w"] - 1) == 0 and t["h"] & (t["h"] - 1) == 0
+    return t["fmt"] in texref.FORMATS and t["w"] % 8 == 0 and t["h"] % 8 == 0 and t["w"] > 0 and t["h"] > 0
+
+
 def rand_textpl(rng, maxside):
     r = rng.random()
     if r < 0.7:
@@ -120,7 +150,9 @@ class C20(PropertyCheck):
             "ignored fields, trailing junk, BCH backward-compatibility bytes on both sides of 0x20), each accepted by the extracted verified "
             "conforms_<fmt>b; streams: ref (whole file: count, order, names, dimensions, pixels against the reference decoders of gen/texref.py), "
             "cut (EVERY prefix length of the file: never PANIC/ABORT, Err whenever the cut removes a payload byte), wrong-magic (each magic byte changed: "
-            "rejected).  Model compared in both profiles (outcome class incl. bad magic, full pixel data / FNV of the Ok line for prefixes).  "
+            "rejected), odd (3DS containers with textures outside the supported set - sides 4..40 that are not powers of two or not multiples of the tile, "
+            "format ids 1, 6, 9, 10, 11 - whole and at every prefix: clean outcome, supported textures of an accepted file checked, model compared), far "
+            "(a 66 KiB junk gap: offsets beyond 16 bits).  Model compared in both profiles (outcome class incl. bad magic, full pixel data / FNV of the Ok line for prefixes).  "
             "Non-trivial = container with at least one texture; distinct = distinct case line.")
     assumptions = [
         "A-std: Cursor<&[u8]> reads past the end fail with UnexpectedEof, seeks never fail; binread 2.1.1 FilePtr32::parse seeks to the absolute offset and restores the position",
@@ -164,6 +196,18 @@ class C20(PropertyCheck):
                             bad = bytearray(img)
                             bad[b] ^= x
                             cases.append(Case("%s full %s" % (kind, hx(bad)), kind + "-wrong-magic"))
+            # textures outside the supported set (3DS containers): other sizes and format ids; compared with the model,
+            # the oracle asks for a clean outcome and checks the supported textures of an accepted file
+            if kind != "tpl":
+                for j in range(12 if not thorough else 120):
+                    n = 1 + j % 4
+                    names = sjis if kind == "ctpk" else utf8
+                    texs = [rand_tex3ds_odd(rng, names) if rng.random() < 0.7 else rand_tex3ds(rng, names, 8) for _ in range(n)]
+                    img, ext = texcont.WRITERS[kind](texs, rng, **rand_knobs(rng, kind))
+                    cases.append(Case("%s ref %s %s" % (kind, hx(img), tex_tokens(texs)), kind + "-odd-ref"))
+                    if len(img) <= cut_limit:
+                        flat = ",".join("%d,%d" % e for e in ext)
+                        cases.append(Case("%s cut %s %d %d L%s" % (kind, hx(img), 0, len(img), flat), kind + "-odd-cut"))
             # offsets beyond 16 bits: a junk gap of 66 KiB in front of one of the parts (whole-file cases only)
             for j in range(4 if not thorough else 24):
                 n = 1 + j % 3
@@ -188,7 +232,10 @@ class C20(PropertyCheck):
         if sub == "ref":
             texs = parse_tex_tokens(toks[3:])
             ot = impl_out.split(" ")
+            allsup = all(is_supported(kind, t) for t in texs)
             if ot[0] != "ok":
+                if not allsup and impl_out.startswith("err"):
+                    return None             # a texture outside the supported set may be refused (RGB8 always is)
                 return "%s: a conforming container with %d textures is rejected (%s)" % (kind, len(texs), impl_out[:60])
             if int(ot[1]) != len(texs) or len(ot) != 2 + len(texs):
                 return "%s: %s textures returned, %d packed" % (kind, ot[1], len(texs))
@@ -199,7 +246,7 @@ class C20(PropertyCheck):
                     return "%s: texture %d has name %s, stored name %s" % (kind, i, name, want)
                 if int(w) != t["w"] or int(h) != t["h"]:
                     return "%s: texture %d is %sx%s, stored %dx%d" % (kind, i, w, h, t["w"], t["h"])
-                why = check_pixels(kind, t, unhx(px))
+                why = check_pixels(kind, t, unhx(px)) if is_supported(kind, t) else None
                 if why:
                     return "%s: texture %d (format %d, %dx%d): %s" % (kind, i, t["fmt"], t["w"], t["h"], why)
             return None
@@ -265,11 +312,11 @@ MANIFEST = dict(
          "restored) against format relations conforms_ctpk / _bch / _cgfx / _tpl written independently of the parsers from the published layouts, with "
          "tables, names and payloads anywhere in the file. All four parsers are proved (no _partial theorem): on every conforming file, in both "
          "arithmetic modes, the reader returns decode_all of the packed textures - same number, order, names (where stored), dimensions, pixel data = "
-         "the C19 decoding of each texture's own payload - and on the supported textures (formats 0,2,3,4,5,7,8,12,13 with power-of-two sides; CI8 with "
+         "the C19 decoding of each texture's own payload - and on the supported textures (colour formats 0,2,3,4,5,7,8 with sides that are multiples of 8, ETC1/ETC1A4 with power-of-two sides; CI8 with "
          "indices inside its RGB5A3 palette) that is Ok (map decoded texs) with mode-independent pixels; BCH, CGFX and TPL input whose first four bytes "
          "are not the magic number is Err EBadMagic (shorter input Err); for every conforming file and every k < |f| reading the first k bytes never "
          "panics and is an error whenever the cut removes a byte of a texture payload (TPL: image or palette data) as located by the file's own tables; "
-         "the four boolean checkers conforms_*b are sound. 21 theorems, closed under the global context. The models are tied to /repo on every run: "
+         "the four boolean checkers conforms_*b are sound. 29 theorems, closed under the global context. The models are tied to /repo on every run: "
          "containers from an independent Python writer with placement knobs that the extracted verified checkers accepted, read whole (full pixel data) "
          "and at EVERY prefix length (outcome class incl. bad magic, FNV of the Ok line), wrong magic numbers, debug and release builds; the oracle "
          "(count, order, names, dimensions, pixels by the reference decoders of gen/texref.py; no PANIC/ABORT on any prefix, Err when a payload byte is "
